@@ -83,11 +83,23 @@ def run(tier):
     finally:
         P.ccg2lambda = orig
     rejects, stats = validate('traces/PrintTrace.tla', events, 'c18', per_shard=150, group='g')
+    from ..trace import binding_demo
+
+    def change_out(e):
+        if e['e'] == 'render' and not e['fresh_raised']:
+            e['out'] = 'x' + e['out']
+            return e
+
+    def change_snap(e):
+        if e['e'] == 'render':
+            e['snap_after'] = e['snap_after'] + [[]]
+            return e
+    demo = binding_demo('traces/PrintTrace.tla', events, [('output_digest_changed', change_out), ('snapshot_changed', change_snap)], 'c18', group='g', limit=3)
     viols = []
     for (i, clause) in rejects:
         m = metas[i]
         viols.append(Violation(PROP, clause, '%s %s' % (m['lang'], ' '.join(m['sequence'])), m))
-    cov.update({'states': r.distinct + stats.states, 'transitions': r.generated + stats.transitions, 'traces_validated_against_impl': len(events),
+    cov.update({'states': r.distinct + stats.states, 'transitions': r.generated + stats.transitions, 'binding_demonstration': demo, 'traces_validated_against_impl': len(events),
                 'exhaustive': tier == 'thorough',
                 'events': {'histories': len(use), 'renderings': sum(1 for e in events if e['e'] == 'render'),
                            'renderings_that_raise_even_on_a_fresh_copy': sum(1 for e in events if e['e'] == 'render' and e['fresh_raised'])},
